@@ -304,6 +304,8 @@ var hostilePieces = []string{
 	"\u0085", "\u00a0", "\u2000", "\u2028", "\u2029", "\u3000", "\u200b", "\ufeff", "\ufffd", "\u00ad", "\u1680", "\u202f", "é", "世界", "😀", "\U0010ffff",
 	"\x80", "\xbf", "\xc3", "\xe2\x82", "\xf0\x9f\x98", "\xc0\xaf", "\xed\xa0\x80", "\xf4\x90\x80\x80", "\xff", "\xfe\xff",
 	"a=b", "a b", "k=\"v\"", "level=ERROR", "time=x", "\n{\"injected\":true}", "\\u0000", "\\n",
+	// characters an implementation may take for unused and use itself as a marker between two passes
+	"\uffff", "\ufffe", "\ufdd0", "\ue000", "\uf8ff", "\x1a", "\x1e", "\x02", "\x03",
 }
 
 // HostileString draws strings biased towards the escaping boundary cases, length 0..~40 pieces,
